@@ -39,3 +39,14 @@ put('C06', 'f07-n3-overlap', mk('prhClwsekk', micro=False), note='fixed d0d930d'
 put('C04', 'f05-hanzi-boundary', {'kind': 'boundary', 'mode': 'hanzi', 'n': 11, 'kw': {'boost_error': False, 'mask': 0, 'mode': 'hanzi', 'error': 'L'}})
 put('C04', 'f03-eci-numeric', {'kind': 'eci', 'mode': 'numeric', 'n': 1, 'kw': {'eci': True, 'boost_error': False, 'mask': 0}})
 print('regress written')
+
+# C08
+def seqcase(content, **kw):
+    return {'fn': 'make_sequence', 'content': enc_content(content), 'kw': kw}
+put('C08', 'k3-16-symbol-limit', seqcase('1' * 180, version=1, error='H'), expect='known:C08/K3-version-path-truncated-at-16-symbols',
+    note='1-H holds 11 digits per symbol with the SA header: 176 digits in 16 symbols')
+put('C08', 'f09-parity-explicit-encoding', seqcase('äöü€' * 5, symbol_count=3, encoding='utf-8'), note='fixed 18c6676')
+put('C08', 'f09-kanji-chunks', seqcase('点茗' * 8, symbol_count=3))
+put('C08', 'f09-int-byte', seqcase(12345678901234567890, symbol_count=2, encoding='utf-8', mode='byte'))
+put('C08', 'f10-grow', seqcase('1' * 100, version=1, error='h'), note='fixed 449ae54')
+print('C08 regress written')
